@@ -22,3 +22,14 @@ Print Assumptions C08_lpcm_stateless.
 
 Example C08_lpcm_example : dec_run [mkPkt 7 0 true []; mkPkt 7 9 false [1]] = [DErr; DFrame [1]].
 Proof. reflexivity. Qed.
+
+(* ---- the translated kernel (tools/go2coq, spec.d/lpcm.txt): len(pkt.Payload) == 0 is the test of Model.dec ---- *)
+From Coq Require Import ZArith.
+From GVG Require Import Kern.
+From GV_lpcm Require Import BridgeLib Bridge.
+Open Scope Z_scope.
+Theorem C08_lpcm_kernels_are_the_code : forall pl : bytes, k_lpcm_dec_empty (Z.of_N (nlen pl)) = (nlen pl =? 0)%N.
+Proof. exact dec_kernels_are_the_code. Qed.
+Print Assumptions C08_lpcm_kernels_are_the_code.
+Example C08_lpcm_example_kernels : k_lpcm_dec_empty 0 = true /\ k_lpcm_dec_empty 1 = false.
+Proof. vm_compute. repeat split. Qed.
